@@ -639,11 +639,26 @@ pub fn run(ctx: &mut Ctx) {
                         let h = if !imps.is_empty() && r.chance(1, 2) { *r.pick(&imps) } else { *cand.last().unwrap() };
                         hs[h].deleted = true;
                         plan.push(A::DelFunc(h));
+                        if hs[h].imp && r.chance(1, 2) {
+                            let later: Vec<usize> = (0..hs.len()).filter(|x| hs[*x].sp == Sp::F && hs[*x].imp && !hs[*x].deleted && hs[*x].id != u32::MAX && hs[*x].id > hs[h].id).collect();
+                            if !later.is_empty() {
+                                let x = *r.pick(&later);
+                                let nm = format!("renamed{}", renames.len());
+                                renames.push((x, nm.clone()));
+                                plan.push(A::Rename(x, nm));
+                            }
+                        }
                     }
                 }
                 _ => {
                     let fs: Vec<usize> = (0..hs.len()).filter(|h| hs[*h].sp == Sp::F && !hs[*h].deleted && !(hs[*h].imp && false)).collect();
-                    let h = *r.pick(&fs);
+                    // naming an import that sits behind a deleted import is where positions and ids part
+                    let behind: Vec<usize> = fs
+                        .iter()
+                        .cloned()
+                        .filter(|h| hs[*h].imp && hs[*h].id != u32::MAX && (0..hs.len()).any(|d| hs[d].sp == Sp::F && hs[d].deleted && hs[d].imp && hs[d].id < hs[*h].id))
+                        .collect();
+                    let h = if !behind.is_empty() && r.chance(2, 3) { *r.pick(&behind) } else { *r.pick(&fs) };
                     let nm = format!("renamed{}", renames.len());
                     renames.push((h, nm.clone()));
                     plan.push(A::Rename(h, nm));
